@@ -10,6 +10,9 @@ pub mod pre {
 
     pub assume_specification<T, A: std::alloc::Allocator>[ VecDeque::<T, A>::is_empty ](q: &VecDeque<T, A>) -> (r: bool)
         ensures r == (q@.len() == 0);
+    /// (not used by the pinned code: a partial contract so that a change that starts peeking at the queue stays analysable)
+    pub assume_specification<T, A: std::alloc::Allocator>[ VecDeque::<T, A>::front ](q: &VecDeque<T, A>) -> (r: Option<&T>)
+        ensures q@.len() == 0 ==> r is None, q@.len() > 0 ==> r == Some(&q@[0]);
     pub assume_specification<T, A: std::alloc::Allocator>[ Vec::<T, A>::capacity ](v: &Vec<T, A>) -> (r: usize)
         ensures r == cap_of(v), r >= v@.len();
     pub assume_specification<T, A: std::alloc::Allocator>[ Vec::<T, A>::reserve_exact ](v: &mut Vec<T, A>, n: usize)
